@@ -362,6 +362,12 @@ func s2Items(name string, windows []int, k int, nalpha int, mons []string, suffi
 	var items []sched.Item
 	for _, w := range windows {
 		for first := 0; first < nalpha; first++ {
+			if k >= 4 {
+				for second := 0; second < nalpha; second++ {
+					items = append(items, sched.Item{Scenario: name, Mode: "s2", Cut: w, Depth: k, Prefix: []int{first, second}, Mons: mons, Suffix: suffix})
+				}
+				continue
+			}
 			items = append(items, sched.Item{Scenario: name, Mode: "s2", Cut: w, Depth: k, Prefix: []int{first}, Mons: mons, Suffix: suffix})
 		}
 	}
